@@ -82,8 +82,9 @@ func (prog *Prog) Dump(dest io.Writer) error {
 	for _, v := range prog.constants {
 		// all but string can fit in a fixed buffer
 		if s, ok := v.(string); ok {
-			if 2+len(s) > len(p) {
-				p = make([]byte, 2+len(s))
+			// 1B type + up to 9B uvarint length + the bytes
+			if 10+len(s) > len(p) {
+				p = make([]byte, 10+len(s))
 			}
 		}
 		n = valueToBytes(p, v)
